@@ -300,6 +300,13 @@ def harness(gen, info: Dict[str, Any], enc: Dict[str, Any], mapping: Dict[str, s
     if mc:
         o.append(f'static {sf_ns}::ILog g_log;')
     o.append('')
+    o.append('static std::string svc_of(const dzn::locator& l) {')
+    o.append('  std::string svc = "["; bool first = true;')
+    o.append('  for (auto& kv : l.vmon_services()) { svc += std::string(first ? "" : ",") + "[\\"" + '
+             'kv.first.first + "\\"," + std::to_string(reinterpret_cast<unsigned long long>(kv.second)) '
+             '+ "]"; first = false; }')
+    o.append('  return svc + "]";')
+    o.append('}')
     o.append('static dzn::pump& the_pump() {')
     if create:
         o.append('  return g_shell->Locator().get<dzn::pump>();')
@@ -429,6 +436,8 @@ def harness(gen, info: Dict[str, Any], enc: Dict[str, Any], mapping: Dict[str, s
         o.append(f'    g_inj_{pname}.reset(new {ctype}({{{{"{pname}", nullptr, nullptr, nullptr}}, '
                  '{"", nullptr, nullptr, nullptr}}));')
         o.append(f'    g_loc->set(*g_inj_{pname});')
+    o.append('    { vmon::J j; j.s("shape", shape).raw("user_services", svc_of(*g_loc)).p("user_locator", g_loc.get())'
+             '.p("user_pump", g_pump.get()).p("user_runtime", g_rt.get()); vmon::log("locator_before", j); }')
     o.append('    try {')
     ctor_args = '*g_loc' + (', g_log' if mc else '') + ', "enc"'
     o.append(f'      g_shell.reset(new Shell({ctor_args}));')
@@ -480,6 +489,8 @@ def harness(gen, info: Dict[str, Any], enc: Dict[str, Any], mapping: Dict[str, s
     o.append('    if (a.empty() || a[0][0] == \'#\') continue;')
     o.append('    auto it = g_ops.find(a[0]);')
     o.append('    if (it == g_ops.end()) { vmon::J j; j.s("line", line); vmon::log("unknown_op", j); rc = 3; break; }')
+    o.append('    if (!g_shell && a[0] != "construct" && a[0] != "reply" && a[0] != "gate" && a[0] != "quiesce") '
+             '{ vmon::J j; j.s("line", line); vmon::log("skipped_no_shell", j); continue; }')
     o.append('    try { it->second(a); }')
     o.append('    catch (const std::exception& e) { vmon::J j; j.s("line", line).s("what", e.what()); '
              'vmon::log("op_threw", j); }')
